@@ -228,5 +228,78 @@ def r01_6(ctx):
     return r
 
 
+RX_ATOMS = ("cumulative_tsn_ack",)
+TX_ATOMS = ("next_tsn", "advanced_peer_ack_tsn", "fast_recovery_exit_tsn")
+
+
+def _space_markers(t):
+    m = set()
+    for x in mir.walk(t):
+        if x[0] == "field":
+            if x[2] in RX_ATOMS or x[2] == "received_queue":
+                m.add("RX")
+            elif x[2] in TX_ATOMS or x[2] == "sent_queue":
+                m.add("TX")
+    return m
+
+
+def _space_alts(b, t, depth=0):
+    """alternative marker sets of a term: one per combination of definitions of the multiply-defined
+    locals ('var' nodes) it mentions (bounded)"""
+    base = _space_markers(t)
+    vs = []
+    for x in mir.walk(t):
+        if x[0] == "var" and len(x) > 2 and x[2] not in [v[2] for v in vs]:
+            vs.append(x)
+    alts = {frozenset(base)}
+    if depth >= 3:
+        return alts
+    for v in vs[:3]:
+        dalts = set()
+        for d in b.var_def_terms(v[2])[:6]:
+            dalts |= _space_alts(b, d, depth + 1)
+        if not dalts:
+            continue
+        alts = {a | d for a in alts for d in dalts}
+        if len(alts) > 32:
+            break
+    return alts
+
+
+def r01_7(ctx):
+    """an SCTP endpoint handles two unrelated TSN spaces: the TSNs it assigns (next_tsn, sent_queue keys,
+    advanced_peer_ack_tsn, fast_recovery_exit_tsn) and the TSNs the peer assigns (cumulative_tsn_ack - the
+    receive point -, received_queue keys). Their initial values are independent random numbers, so a comparison
+    or difference of a value from one space with a value from the other is meaningless."""
+    r = RuleResult("R01.7", "K6/units", "own-TSN and peer-TSN values are never compared with each other")
+    n = 0
+    for b in ctx.facts.bodies(prefix="transports::sctp::"):
+        if "::tests::" in b.name:
+            continue
+        sites = []
+        for bi, t, p in b.calls():
+            if p and (p.endswith("sctp::tsn_gt") or p.endswith("::wrapping_sub")) and len(t["a"]) == 2:
+                sites.append((bi, None, b.term_operand(t["a"][0]), b.term_operand(t["a"][1]), p.split("::")[-1]))
+        for bi, si, st in b.assigns():
+            rv = st["rv"]
+            if rv["r"] == "bin" and rv["op"] in ("Eq", "Ne", "Lt", "Le", "Gt", "Ge", "Sub", "SubWithOverflow"):
+                sites.append((bi, si, b.term_operand(rv["a"]), b.term_operand(rv["b"]), rv["op"]))
+        for bi, si, ta, tb, op in sites:
+            aa, ab = _space_alts(b, ta), _space_alts(b, tb)
+            if not any(aa) or not any(ab):
+                continue
+            n += 1
+            bad = [(x, y) for x in aa for y in ab if (x == {"RX"} and y == {"TX"}) or (x == {"TX"} and y == {"RX"})]
+            if bad:
+                r.violate(b.name, "mix:%s" % op, b.where(bi, si),
+                          "%s(%s, %s) relates a TSN of the peer's space (receive point) to a TSN of our own space" %
+                          (op, mir.show(ta, 60), mir.show(tb, 60)))
+            else:
+                r.ok({"site": b.where(bi, si), "op": op} if n <= 12 else None)
+    r.samples = [x for x in r.samples if x]
+    r.need("TSN comparisons with a known space on both sides", n, 5)
+    return r
+
+
 def run(ctx):
-    return [r01_1(ctx), r01_2(ctx), r01_3(ctx), r01_4(ctx), r01_5(ctx), r01_6(ctx)]
+    return [r01_1(ctx), r01_2(ctx), r01_3(ctx), r01_4(ctx), r01_5(ctx), r01_6(ctx), r01_7(ctx)]
